@@ -200,16 +200,26 @@ Fixpoint deltas_of (previous : N) (entries : list N) : outcome (list N) :=
               else obind (deltas_of e r) (fun ds => Ok ((e - previous) :: ds))
   end.
 
+(* [short n l]: l has fewer than n elements (looks at no more than n of them) *)
+Fixpoint short (n : nat) (l : list N) : bool :=
+  match n, l with
+  | O, _ => false
+  | S _, [] => true
+  | S m, _ :: r => short m r
+  end.
+
 (* `while i + BLOCK_WIDTH <= len { pack_bits_block }` then the BitPacker tail *)
 Fixpoint pack_deltas (fuel : nat) (bits : N) (ds : list N) : outcome (list N) :=
   match fuel with
   | O => Ok []
   | S f =>
-      if BLOCK_WIDTH <=? N.of_nat (length ds) then
+      if negb (short (N.to_nat BLOCK_WIDTH) ds) then
         obind (pack_bits_block (firstn (N.to_nat BLOCK_WIDTH) ds) bits) (fun b =>
         obind (pack_deltas f bits (skipn (N.to_nat BLOCK_WIDTH) ds)) (fun r => Ok (b ++ r)))
-      else if 0 <? N.of_nat (length ds) then pack_tail bits ds
-      else Ok []
+      else match ds with
+           | _ :: _ => pack_tail bits ds
+           | [] => Ok []
+           end
   end.
 
 Definition c_flags_v4 : N :=
@@ -239,7 +249,7 @@ Definition c_serialize_compressed (c : csk) : outcome (list N) :=
 
 (* cursor.read_uN_le: Err (insufficient data) when fewer than n bytes remain *)
 Definition rd (n : nat) (bs : list N) : outcome (N * list N) :=
-  if (length bs <? n)%nat then Err else Ok (le_val (firstn n bs), skipn n bs).
+  if short n bs then Err else Ok (le_val (firstn n bs), skipn n bs).
 
 (* ensure_theta *)
 Definition ensure_theta (theta : N) : outcome unit :=
@@ -336,13 +346,13 @@ Fixpoint unpack_deltas (fuel : nat) (bits : N) (remaining : N) (bs : list N) : o
   | O => Ok []
   | S f =>
       if BLOCK_WIDTH <=? remaining then
-        if (length bs <? N.to_nat bits)%nat then Err
+        if short (N.to_nat bits) bs then Err
         else
           obind (unpack_bits_block (firstn (N.to_nat bits) bs) bits) (fun vs =>
           obind (unpack_deltas f bits (remaining - BLOCK_WIDTH) (skipn (N.to_nat bits) bs)) (fun r => Ok (vs ++ r)))
       else if 0 <? remaining then
         let bytes_needed := (remaining * bits + 7) / 8 in
-        if (length bs <? N.to_nat bytes_needed)%nat then Err
+        if short (N.to_nat bytes_needed) bs then Err
         else unpack_tail bits (N.to_nat remaining) (firstn (N.to_nat bytes_needed) bs)
       else Ok []
   end.
